@@ -290,4 +290,122 @@ theorem cvalidate_limitsFree (b : CType F) (h : b.limitsFree = true) (v : PVal F
   | error e => rfl
   | ok r => simp [ordered_limitsFree b r h]
 
+/-! ## rebuild and copy: classes -/
+
+mutual
+theorem erase_ofKind : ∀ t : DType F, (ofKind t).erase = t
+  | .array e a b => by simp only [ofKind, erase, erase_ofKind e]
+  | .tuple es => by simp only [ofKind, erase, eraseList_ofKindList es]
+  | .struct ms opt c => by simp only [ofKind, erase, eraseFields_ofKindFields ms]
+  | .double .. => rfl
+  | .int .. => rfl
+  | .scaled .. => rfl
+  | .bool => rfl
+  | .enum _ => rfl
+  | .string .. => rfl
+  | .blob .. => rfl
+theorem eraseList_ofKindList : ∀ ts : List (DType F), eraseList (ofKindList ts) = ts
+  | [] => rfl
+  | t :: ts => by simp only [ofKindList, eraseList, erase_ofKind t, eraseList_ofKindList ts]
+theorem eraseFields_ofKindFields : ∀ ms : List (String × DType F), eraseFields (ofKindFields ms) = ms
+  | [] => rfl
+  | (k, t) :: ts => by simp only [ofKindFields, eraseFields, erase_ofKind t, eraseFields_ofKindFields ts]
+end
+
+mutual
+theorem limitsFree_ofKind : ∀ t : DType F, (ofKind t).limitsFree = true
+  | .array e a b => by simp only [ofKind, limitsFree, limitsFree_ofKind e]
+  | .tuple es => by simp only [ofKind, limitsFree, limitsFreeList_ofKindList es]
+  | .struct ms opt c => by simp only [ofKind, limitsFree, limitsFreeFields_ofKindFields ms]
+  | .double .. => rfl
+  | .int .. => rfl
+  | .scaled .. => rfl
+  | .bool => rfl
+  | .enum _ => rfl
+  | .string .. => rfl
+  | .blob .. => rfl
+theorem limitsFreeList_ofKindList : ∀ ts : List (DType F), limitsFreeList (ofKindList ts) = true
+  | [] => rfl
+  | t :: ts => by simp only [ofKindList, limitsFreeList, limitsFree_ofKind t, limitsFreeList_ofKindList ts, Bool.and_self]
+theorem limitsFreeFields_ofKindFields : ∀ ms : List (String × DType F), limitsFreeFields (ofKindFields ms) = true
+  | [] => rfl
+  | (k, t) :: ts => by
+    simp only [ofKindFields, limitsFreeFields, limitsFree_ofKind t, limitsFreeFields_ofKindFields ts, Bool.and_self]
+end
+
+mutual
+theorem erase_copyC : ∀ a : CType F, (copyC a).erase = a.erase
+  | .leaf _ => rfl
+  | .text _ => rfl
+  | .array e _ _ => by simp only [copyC, erase, erase_copyC e]
+  | .tuple es => by simp only [copyC, erase, eraseList_copyCList es]
+  | .limits m => by simp only [copyC, erase, erase_copyC m]
+  | .status _ => by simp only [copyC, erase, eraseList]
+  | .struct ms _ _ => by simp only [copyC, erase, eraseFields_copyCFields ms]
+theorem eraseList_copyCList : ∀ es : List (CType F), eraseList (copyCList es) = eraseList es
+  | [] => rfl
+  | t :: ts => by simp only [copyCList, eraseList, erase_copyC t, eraseList_copyCList ts]
+theorem eraseFields_copyCFields : ∀ ms : List (String × CType F), eraseFields (copyCFields ms) = eraseFields ms
+  | [] => rfl
+  | (k, t) :: ts => by simp only [copyCFields, eraseFields, erase_copyC t, eraseFields_copyCFields ts]
+end
+
+theorem all_congr' {α : Type} {f g : α → Bool} (h : ∀ x, f x = g x) : ∀ l : List α, l.all f = l.all g
+  | [] => rfl
+  | x :: xs => by simp only [List.all_cons, h x, all_congr' h xs]
+
+mutual
+theorem ordered_copyC : ∀ (a : CType F) (r : PVal F), ordered (copyC a) r = ordered a r
+  | .leaf _, _ => rfl
+  | .text _, _ => rfl
+  | .array e _ _, r => by
+    cases r <;> simp only [copyC, ordered]
+    case tuple vs => exact all_congr' (ordered_copyC e) vs
+  | .tuple es, r => by
+    cases r <;> simp only [copyC, ordered]
+    case tuple vs => exact orderedZip_copyCList es vs
+  | .limits m, r => by
+    cases r <;> simp only [copyC, ordered]
+    case tuple vs =>
+      match vs with
+      | [] => rfl
+      | [x] => rfl
+      | [x, y] => simp only [ordered_copyC m x, ordered_copyC m y]
+      | _ :: _ :: _ :: _ => rfl
+  | .status _, r => by
+    cases r <;> simp only [copyC, ordered]
+    case tuple vs =>
+      match vs with
+      | [] => simp [orderedZip]
+      | [x] => simp [orderedZip, ordered]
+      | x :: y :: rest => simp [orderedZip, ordered]
+  | .struct ms _ _, r => by
+    cases r <;> simp only [copyC, ordered]
+    case dict fields => exact all_congr' (fun kv => orderedMember_copyCFields ms kv.1 kv.2) fields
+theorem orderedZip_copyCList : ∀ (es : List (CType F)) (vs : List (PVal F)),
+    orderedZip (copyCList es) vs = orderedZip es vs
+  | [], _ => by simp only [copyCList, orderedZip]
+  | _ :: _, [] => by simp only [copyCList, orderedZip]
+  | t :: ts, v :: vs => by simp only [copyCList, orderedZip, ordered_copyC t v, orderedZip_copyCList ts vs]
+theorem orderedMember_copyCFields : ∀ (ms : List (String × CType F)) (k : String) (v : PVal F),
+    orderedMember (copyCFields ms) k v = orderedMember ms k v
+  | [], _, _ => rfl
+  | (k', t) :: rest, k, v => by
+    simp only [copyCFields, orderedMember, ordered_copyC t v, orderedMember_copyCFields rest k v]
+end
+
+/-- the copy validates exactly like the original -/
+theorem cvalidate_copyC (a : CType F) (v : PVal F) (prev : Option (PVal F)) :
+    cvalidate (copyC a) v prev = cvalidate a v prev := by
+  unfold cvalidate
+  rw [erase_copyC]
+  cases validate a.erase v prev with
+  | error e => rfl
+  | ok r => simp only [ordered_copyC a r]
+
+/-- the type rebuilt from the description validates like the original when the original holds no `LimitsType` -/
+theorem cvalidate_rebuildC (a : CType F) (h : a.limitsFree = true) (v : PVal F) (prev : Option (PVal F)) :
+    cvalidate (rebuildC a) v prev = cvalidate a v prev := by
+  rw [cvalidate_limitsFree a h, rebuildC, cvalidate_limitsFree _ (limitsFree_ofKind _), erase_ofKind]
+
 end Frappy.Lemmas.C03V
